@@ -1,6 +1,6 @@
 /-
 C12 — helper lemmas, value level: `round53` is the identity strictly inside ±2^53 and never maps
-an integer from outside into it; on exactly converted integers the float64 comparison is the
+an integer from outside into it (so an exact integer never collides with another one's image); on exactly converted integers the float64 comparison is the
 integer comparison; hence `fastCompare.eval` answers what the expr-lang table answers whenever it
 answers at all; chains. Core Lean only (no Mathlib import needed).
 -/
@@ -148,18 +148,39 @@ theorem asGoInt_of_exact {x : IntV} (h : exactInt x.val = true) : x.asGoInt = x.
 
 /-! ### single comparison -/
 
-/-- integer value, integer literal, both exactly convertible: float compare = exact compare -/
-theorem fastNum_int_int {x : IntV} {f : F64} {n : Int} (op : Op)
-    (hf : toFloat64FastInt x = some f) (hn : litFastOk (.int n) = true) :
+/-- an integer strictly inside ±2^53 compares with the float64 image of any integer as with
+the integer itself (the image of an integer from outside stays outside) -/
+theorem compareInt_round53 {x : Int} (hx : exactInt x = true) (n : Int) (op : Op) :
+    compareInt x op (round53 n) = compareInt x op n := by
+  have hb := exactInt_bounds hx
+  by_cases hn : n.natAbs < 2 ^ 53
+  · have : round53 n = n := by
+      unfold round53
+      rw [roundNat53_of_lt hn]
+      split <;> omega
+    rw [this]
+  · have hge := le_roundNat53 (Nat.le_of_not_lt hn)
+    have hr : (0 ≤ n ∧ 9007199254740992 ≤ round53 n ∧ 9007199254740992 ≤ n) ∨
+              (n < 0 ∧ round53 n ≤ -9007199254740992 ∧ n ≤ -9007199254740992) := by
+      unfold round53
+      split <;> omega
+    have hd : ∀ (p q : Prop) [Decidable p] [Decidable q], (p ↔ q) → decide p = decide q :=
+      fun p q _ _ hpq => by simp [hpq]
+    have e1 : decide (round53 n < x) = decide (n < x) := hd _ _ (by omega)
+    have e2 : decide (x < round53 n) = decide (x < n) := hd _ _ (by omega)
+    have e3 : decide (x = round53 n) = decide (x = n) := hd _ _ (by omega)
+    cases op <;> simp only [compareInt, e1, e2, e3]
+
+/-- integer value inside the exact range, integer literal: float compare = exact compare -/
+theorem fastNum_int_int {x : IntV} {f : F64} (n : Int) (op : Op)
+    (hf : toFloat64FastInt x = some f) :
     compareNum f op (litNum (.int n)) = compareInt x.asGoInt op n := by
   obtain ⟨hf1, hx⟩ := toFloat64FastInt_some hf
-  simp only [litFastOk] at hn
   rw [hf1, asGoInt_of_exact hx]
   simp only [litNum, F64.ofInt]
-  rw [round53_of_exact hx, round53_of_exact_image hn]
-  exact compareNum_scaled _ _ op
+  rw [round53_of_exact hx, compareNum_scaled, compareInt_round53 hx]
 
-theorem fastVal_agrees {v : Val} {op : Op} {lit : Lit} {b : Bool} (hl : litFastOk lit = true)
+theorem fastVal_agrees {v : Val} {op : Op} {lit : Lit} {b : Bool}
     (h : fastVal v op lit = some b) : generalVal (some v) op lit = .ok b := by
   cases lit with
   | str t =>
@@ -179,7 +200,7 @@ theorem fastVal_agrees {v : Val} {op : Op} {lit : Lit} {b : Bool} (hl : litFastO
       | some f =>
         simp only [hf, Option.some.injEq] at h
         simp only [generalVal, generalInt]
-        rw [← fastNum_int_int op hf hl, h]
+        rw [← fastNum_int_int n op hf, h]
     | null => simp [toFloat64Fast] at h
     | bool _ => simp [toFloat64Fast] at h
     | str _ => simp [toFloat64Fast] at h
@@ -207,7 +228,7 @@ theorem fastVal_agrees {v : Val} {op : Op} {lit : Lit} {b : Bool} (hl : litFastO
     | str _ => simp [toFloat64Fast] at h
     | other => simp [toFloat64Fast] at h
 
-theorem fastEval_agrees {c : Cmp} {row : Row} {b : Bool} (hl : litFastOk c.lit = true)
+theorem fastEval_agrees {c : Cmp} {row : Row} {b : Bool}
     (h : fastEval c row = some b) : generalCmp c row = .ok b := by
   unfold fastEval at h
   unfold generalCmp
@@ -218,7 +239,7 @@ theorem fastEval_agrees {c : Cmp} {row : Row} {b : Bool} (hl : litFastOk c.lit =
     | null => simp [hg] at h
     | _ =>
       simp only [hg] at h
-      exact fastVal_agrees hl h
+      exact fastVal_agrees h
 
 
 /-! ### chains -/
@@ -226,14 +247,13 @@ theorem fastEval_agrees {c : Cmp} {row : Row} {b : Bool} (hl : litFastOk c.lit =
 theorem chainFrom_eval {isAnd : Bool} {row : Row} :
     ∀ (cs : List Cmp) (acc : Pred) (a : Bool) (bs : List Bool),
       generalEval acc row = .ok a → fastAll row cs = some bs →
-      (∀ c ∈ cs, litFastOk c.lit = true) →
       generalEval (chainFrom isAnd acc cs) row =
         .ok (if isAnd then a && bs.all id else a || bs.any id)
-  | [], acc, a, bs, hacc, hall, _ => by
+  | [], acc, a, bs, hacc, hall => by
     simp only [fastAll, Option.some.injEq] at hall
     subst hall
     simp [chainFrom, hacc]
-  | c :: cs, acc, a, bs, hacc, hall, hok => by
+  | c :: cs, acc, a, bs, hacc, hall => by
     simp only [fastAll] at hall
     cases h1 : fastEval c row with
     | none => simp [h1] at hall
@@ -243,18 +263,17 @@ theorem chainFrom_eval {isAnd : Bool} {row : Row} :
       | some bs' =>
         simp only [h1, h2, Option.some.injEq] at hall
         subst hall
-        have hc := fastEval_agrees (hok c (List.mem_cons_self ..)) h1
+        have hc := fastEval_agrees h1
         have hstep : generalEval (if isAnd then Pred.and acc (.cmp c) else Pred.or acc (.cmp c)) row
             = .ok (if isAnd then a && b1 else a || b1) := by
           cases isAnd <;> cases a <;> simp [generalEval, hacc, hc, Res.and, Res.or]
         have ih := chainFrom_eval (isAnd := isAnd) cs _ _ bs' hstep h2
-          (fun c' hc' => hok c' (List.mem_cons_of_mem _ hc'))
         simp only [chainFrom]
         rw [ih]
         cases isAnd <;> simp [Bool.and_assoc, Bool.or_assoc]
 
 theorem fastCompound_agrees {isAnd : Bool} {cs : List Cmp} {row : Row} {b : Bool} {p : Pred}
-    (hok : ∀ c ∈ cs, litFastOk c.lit = true) (hp : chainPred isAnd cs = some p)
+    (hp : chainPred isAnd cs = some p)
     (h : fastCompound isAnd cs row = some b) : generalEval p row = .ok b := by
   cases cs with
   | nil => simp [chainPred] at hp
@@ -270,9 +289,8 @@ theorem fastCompound_agrees {isAnd : Bool} {cs : List Cmp} {row : Row} {b : Bool
       | none => simp [h1, h2] at h
       | some bs =>
         simp only [h1, h2, Option.map_some, Option.some.injEq] at h
-        have hc := fastEval_agrees (hok c (List.mem_cons_self ..)) h1
+        have hc := fastEval_agrees h1
         have := chainFrom_eval (isAnd := isAnd) cs (.cmp c) b1 bs (by simpa [generalEval] using hc) h2
-          (fun c' hc' => hok c' (List.mem_cons_of_mem _ hc'))
         rw [this, ← h]
         cases isAnd <;> simp [combine]
 
@@ -280,9 +298,8 @@ theorem fastCompound_agrees {isAnd : Bool} {cs : List Cmp} {row : Row} {b : Bool
 
 /-- the shortcuts of a condition were compiled from the predicate the program evaluates -/
 def CondM.Sound (c : CondM) : Prop :=
-  (∀ f, c.fast = some f → c.pred = .cmp f ∧ litFastOk f.lit = true) ∧
-  (∀ isAnd parts, c.compound = some (isAnd, parts) →
-      chainPred isAnd parts = some c.pred ∧ ∀ p ∈ parts, litFastOk p.lit = true)
+  (∀ f, c.fast = some f → c.pred = .cmp f) ∧
+  (∀ isAnd parts, c.compound = some (isAnd, parts) → chainPred isAnd parts = some c.pred)
 
 theorem fastPath_agrees {c : CondM} (hs : c.Sound) {row : Row} {b : Bool}
     (h : c.fastPath row = some b) : generalEval c.pred row = .ok b := by
@@ -291,17 +308,15 @@ theorem fastPath_agrees {c : CondM} (hs : c.Sound) {row : Row} {b : Bool}
   | some x =>
     obtain ⟨isAnd, parts⟩ := x
     simp only [hc] at h
-    obtain ⟨hp, hok⟩ := hs.2 isAnd parts hc
-    exact fastCompound_agrees hok hp h
+    exact fastCompound_agrees (hs.2 isAnd parts hc) h
   | none =>
     simp only [hc] at h
     cases hf : c.fast with
     | none => simp [hf] at h
     | some f =>
       simp only [hf] at h
-      obtain ⟨hp, hok⟩ := hs.1 f hf
-      rw [hp]
-      simpa [generalEval] using fastEval_agrees hok h
+      rw [hs.1 f hf]
+      simpa [generalEval] using fastEval_agrees h
 
 theorem evaluate_eq_general' {c : CondM} (hs : c.Sound) (row : Row) :
     c.evaluate row = (generalEval c.pred row).decision := by
